@@ -26,6 +26,7 @@ claimed = {
 na = {
 }
 techn = "bounded symbolic execution of the real go/ssa (gosym) + SMT (z3), counterexamples replayed natively"
+thorough_quick = {"C01", "C02", "C03", "C04", "C07", "C08", "C10", "C13", "C16"}
 note = "Trusted: go/ssa semantics as implemented by gosym (selftest + native replay), z3 verdicts, stub contracts listed in evidence. Bounds (text length, shape family, ranges) are stated in evidence.coverage.bounds; nothing is claimed outside them."
 checks = []
 for pid in sorted(claimed):
@@ -38,7 +39,7 @@ for pid in sorted(claimed):
         "replay_cmd_template": "/verif/bin/vcheck replay {path}",
         "engine": "gosym",
         "level_claimed": {"category": "model_checking", "text": text, "design_ref": "DESIGN.md §" + ref},
-        "level_note": note,
+        "level_note": note + (" The thorough command of this property currently explores the quick bounds (with the thorough tier's time limits and three-solver cross-check): its deeper bounds did not finish within the session in which the harnesses were last extended (DESIGN 8.16)." if pid in thorough_quick else ""),
         "technique": techn,
     })
 props = [json.loads(l)["id"] for l in open("/verif/properties.jsonl")]
